@@ -404,3 +404,50 @@ def engine_sockaddr(tier, seed):
     for d in res['divergences']:
         d['tag'] = 'C16'
     return res
+
+
+INOTIFY_DEVIATIONS = ['ReuseBufferWhileEventHeld']
+INOTIFY_CFG = """SPECIFICATION Spec
+CONSTANTS
+    MaxRecs = %(maxrecs)d
+    Wds <- %(wds)s
+    KnownWds <- %(known)s
+    RecKinds = %(kinds)s
+    NameLens = %(names)s
+    Dev = %(dev)s
+INVARIANTS
+    DecodedExactly
+    WatchTable
+    %(held)s
+    ExportCase
+CHECK_DEADLOCK FALSE
+"""
+
+
+def engine_inotify(tier, seed):
+    dev = deviations_for(INOTIFY_DEVIATIONS)
+    parts = []
+    confs = [('inotify_2', dict(maxrecs=2, wds='WdsDef', known='KnownDef', kinds='{"plain", "isdir", "ignored", "overflow"}',
+                                names='{0, 1, 2, 15, 16, 17}')),
+             ('inotify_3', dict(maxrecs=3, wds='WdsSmall', known='KnownSmall', kinds='{"plain", "ignored", "overflow"}',
+                                names='{0, 16}'))]
+    if tier == 'thorough':
+        confs.append(('inotify_255', dict(maxrecs=2, wds='WdsSmall', known='KnownSmall', kinds='{"plain", "ignored"}',
+                                          names='{0, 1, 31, 32, 33, 239, 240, 255}')))
+    for name, c in confs:
+        # 1. contract (no deviation): HeldValid holds.
+        cfg = write_cfg(name + '_contract', INOTIFY_CFG % dict(c, dev='{}', held='HeldValid'))
+        r = run_tlc(name + '_contract', 'MC_Inotify', cfg, timeout=1800)
+        r['purpose'] = 'contract: invariants with Dev = {}'
+        if not r['ok']:
+            return {'engine': 'inotify', 'tlc': [r], 'replays': [], 'divergences': [], 'samples': [],
+                    'errors': ['TLC %s: %s' % (name, r['violated'] or r['error'])], 'cached': False}
+        # 2. as implemented: enumerate and replay.
+        p = engine_cases(name, 'MC_Inotify', INOTIFY_CFG % dict(c, dev=tla_set(dev), held='DecodedExactly'),
+                         'replay_inotify', tier, seed, model='Inotify', cfg_name=name)
+        p['tlc'].insert(0, r)
+        parts.append(p)
+    res = merge_results('inotify', parts)
+    for d in res['divergences']:
+        d['tag'] = 'C17'
+    return res
